@@ -155,11 +155,13 @@ def bulk_history(rng, n_items, profile='full'):
     ops = []
     now = 1000
     exp = rng.choice([5, 5, 9])
+    # one dominant tag in most tables, so that more than one 100-row page carries it
+    tags = rng.choice([['red', 'red', 'red', 'red', 'blue', None], ['red', 'blue', None], ['blue'] * 5 + ['red']])
     for i in range(n_items):
         r = rng.random()
         ttl = exp if r < 0.5 else (None if r < 0.8 else rng.choice([1, 20, -7]))
         ops.append({'m': 'set', 'now': now, 'k': rng.choice([i, 'k%d' % i, (i,)]), 'v': rng.choice(
-            ['v', b'b' * 20, i]), 'ttl': ttl, 'tag': rng.choice(['red', 'blue', None])})
+            ['v', b'b' * 20, i]), 'ttl': ttl, 'tag': rng.choice(tags)})
         if rng.random() < 0.1:
             now += 1
     tail = [{'m': 'iter'}, {'m': 'riter'}, {'m': 'iterkeys'}, {'m': 'riterkeys'}, {'m': 'len'},
@@ -292,11 +294,11 @@ def c02_keys(disk):
     return ks
 
 
-def c02_history(cfg, k1, k2, codec_extra=None):
+def c02_history(cfg, k1, k2, codec_extra=None, second='set'):
     now = 1000
     ops = [
         {'m': 'set', 'now': now, 'k': k1, 'v': 'A', 'ttl': None, 'tag': None},
-        {'m': 'set', 'now': now, 'k': k2, 'v': 'B', 'ttl': None, 'tag': None},
+        {'m': second, 'now': now, 'k': k2, 'v': 'B', 'ttl': None, 'tag': None},
         {'m': 'len', 'now': now},
         {'m': 'get', 'now': now, 'k': k1},
         {'m': 'get', 'now': now, 'k': k2},
@@ -321,18 +323,20 @@ def c02_histories(rng, tier):
             # every pair once, protocol varied over the pairs
             for i, (a, b) in enumerate(pairs):
                 cfg = {'mfs': 32768, 'disk': disk, 'proto': protos[i % len(protos)], 'policy': 'lrs', 'cull': 10, 'stats': 0}
-                hists.append(c02_history(cfg, a, b))
+                hists.append(c02_history(cfg, a, b, second=('set', 'add')[(i // len(protos)) % 2]))
         else:
             for proto in protos:
                 for (a, b) in pairs:
                     cfg = {'mfs': 32768, 'disk': disk, 'proto': proto, 'policy': 'lrs', 'cull': 10, 'stats': 0}
                     hists.append(c02_history(cfg, a, b))
+                    hists.append(c02_history(cfg, a, b, second='add'))
     # a bytes key equal to the serialized form of another key
     import pickle, pickletools
     for proto in range(6):
         for other in (None, (1, 2), True, 2 ** 64):
             pk = pickletools.optimize(pickle.dumps(other, protocol=proto))
             cfg = {'mfs': 32768, 'disk': 'pickle', 'proto': proto, 'policy': 'lrs', 'cull': 10, 'stats': 0}
-            hists.append(c02_history(cfg, other, pk))
-            hists.append(c02_history(cfg, pk, other))
+            for second in ('set', 'add'):
+                hists.append(c02_history(cfg, other, pk, second=second))
+                hists.append(c02_history(cfg, pk, other, second=second))
     return hists
